@@ -72,6 +72,9 @@ def build_spec(seed: int, tier: str, enum_index: int | None = None, doc_seed: in
         # state of the output location before the command: absent (the usual case), or an existing directory
         # with content, with or without --overwrite: a rejected document must leave it untouched either way
         "precreate": a.choice([None, None, None, None, "with-overwrite", "with-overwrite", "without-overwrite"]),
+        # post-hooks are real subprocesses: none (usual), succeeding, missing from PATH (warning), failing (error-level diagnostic)
+        "post_hooks": a.choice([[], [], [], [], [], ["true"], ["verif_missing_cmd"], ["false"], ["verif_missing_cmd", "false"], ["false", "verif_missing_cmd"], ["true", "false"]]),
+        "yaml_native": a.choice([None, None, None, 0, 1, 2]),
     }
     if enum_index is not None:
         space = faults.single_fault_space(doc)
@@ -146,7 +149,10 @@ def payload_of(spec: dict) -> bytes:
     if spec.get("payload_b64") is not None:
         data = base64.b64decode(spec["payload_b64"])
     else:
-        data = faults.dumps(spec["doc"], spec["ser"])
+        doc = spec["doc"]
+        if spec.get("yaml_native") is not None and spec["ser"].startswith("yaml"):
+            doc = faults.add_yaml_native(doc, spec["yaml_native"])
+        data = faults.dumps(doc, spec["ser"])
     for bf in spec.get("byte_faults") or []:
         data = faults.apply_byte_fault(data, bf)
     return data
@@ -172,7 +178,7 @@ def run_spec(args: dict, sandbox: str) -> dict:
     os.makedirs(work)
     data = payload_of(spec)
     ch = spec["channel"]
-    cfgpath = genrun.write_config(sandbox, {"post_hooks": [], **(spec.get("config") or {})})
+    cfgpath = genrun.write_config(sandbox, {"post_hooks": list(spec.get("post_hooks") or []), **(spec.get("config") or {})})
     argv = ["generate", "--config", cfgpath, "--meta", spec["meta"]]
     if ch["kind"] == "file":
         docpath = os.path.join(sandbox, "document" + ch["ext"])
@@ -241,7 +247,7 @@ def run_spec(args: dict, sandbox: str) -> dict:
             if (res["exit_code"] != 0) != expect_nonzero:
                 violations.append({
                     "kind": "exit-status",
-                    "locus": f"exit={res['exit_code']} error_diag={has_error} fail_on_warning={spec['fail_on_warning']} n_diag={len(diags)}",
+                    "locus": f"exit={res['exit_code']} error_diag={has_error} fail_on_warning={spec['fail_on_warning']}",
                     "detail": f"exit status {res['exit_code']} but diagnostics levels {[d['level'] for d in diags][:10]}",
                 })
             for d in diags:
@@ -249,7 +255,13 @@ def run_spec(args: dict, sandbox: str) -> dict:
                 if h and h.strip() and h.strip() not in res["stderr"]:
                     violations.append({"kind": "diagnostic-not-printed", "locus": d["cls"], "detail": f"header {h!r} missing from CLI output"})
                     break
-            if has_error:
+            # a failing post-hook is an error-level diagnostic AFTER the client was written; every other error-level
+            # diagnostic is a rejection (document, or existing directory) and must leave the file system untouched
+            hook_errors = [d for d in diags if d["level"] == "ERROR" and (d["header"] or "").endswith(" failed")]
+            rejected = has_error and len(hook_errors) < sum(1 for d in diags if d["level"] == "ERROR")
+            if hook_errors and not rejected:
+                outcome = "hook-failed"
+            if rejected:
                 wrote = seam.mutating_ok()
                 if wrote or before != after:
                     changed = sorted(set(after) ^ set(before))[:5]
@@ -278,6 +290,8 @@ def run_spec(args: dict, sandbox: str) -> dict:
         "fail-on-warning-with-warnings": 1 if spec["fail_on_warning"] and outcome == "warnings" else 0,
         "existing-output+overwrite+rejected": 1 if spec.get("precreate") == "with-overwrite" and spec["output"] == "explicit" and outcome == "rejected" else 0,
         "existing-output-without-overwrite": 1 if spec.get("precreate") == "without-overwrite" and spec["output"] == "explicit" else 0,
+        "post-hooks-configured": 1 if spec.get("post_hooks") else 0,
+        "yaml-native-scalars": 1 if spec.get("yaml_native") is not None and spec["ser"].startswith("yaml") else 0,
     }
     return {
         "violations": violations,
@@ -381,6 +395,13 @@ def shrink_candidates(spec: dict) -> list[dict]:
         out.append(variant(output="explicit"))
     if spec.get("precreate"):
         out.append(variant(precreate=None))
+    if spec.get("post_hooks"):
+        out.append(variant(post_hooks=[]))
+        if len(spec["post_hooks"]) > 1:
+            out.append(variant(post_hooks=spec["post_hooks"][:1]))
+            out.append(variant(post_hooks=spec["post_hooks"][1:]))
+    if spec.get("yaml_native") is not None:
+        out.append(variant(yaml_native=None))
     if spec["meta"] != "none":
         out.append(variant(meta="none"))
     if any((spec.get("config") or {}).values()):
